@@ -20,7 +20,14 @@ def _c(v) -> Fraction:
     if isinstance(v, int):
         return Fraction(v)
     if isinstance(v, float):
-        return Fraction(v)
+        # a float that is, to within a few ulps, a ratio of small integers stands for that ratio: constants folded in floating
+        # point by the analysed code (1 / 3, 0.1 + 0.2) and the same constants kept symbolic elsewhere get one normal form
+        f = Fraction(v)
+        if f.denominator > 10**6:
+            g = f.limit_denominator(10**6)
+            if g != 0 and abs(g - f) <= abs(f) * Fraction(1, 2**50):
+                return g
+        return f
     raise TypeError(v)
 
 
@@ -209,6 +216,15 @@ def to_poly(s, atom_map=None, _depth: int = 0) -> Optional[Poly]:
             return _complement_call(name, args[0])
         if name in EVEN_FUNCS and len(args) == 1:
             return p_atom(("call", name, freeze(_abs_canon(args[0]))))
+        if name in EVEN_IN_FIRST and len(args) == 2:
+            return p_atom(("call", name, freeze(_abs_canon(args[0])), freeze(args[1])))
+        if name in ODD_IN_FIRST and len(args) == 2:
+            z = args[0]
+            if not z:
+                return {}
+            canon = _abs_canon(z)
+            at = p_atom(("call", name, freeze(canon), freeze(args[1])))
+            return at if canon == z else p_neg(at)
         # odd/even structure of a few functions is used by the symmetry rules through recognised shapes only
         return p_atom(("call", name) + tuple(freeze(a) for a in args))
     if k == "fold":
@@ -276,6 +292,11 @@ COMPLEMENT_FUNCS = {"$logistic", "NormalDist.cdf", "fn:phi_major"}
 
 # even functions f(-z) = f(z) (the Gaussian density), by role
 EVEN_FUNCS = {"NormalDist.pdf", "fn:phi_minor"}
+
+
+# the draw corrections by role: W~(x, t) is even and V~(x, t) is odd in x (checked on the code, branch by branch, by C17 R17.5)
+EVEN_IN_FIRST = {"fn:wt"}
+ODD_IN_FIRST = {"fn:vt"}
 
 
 def _abs_canon(z: Poly) -> Poly:
